@@ -103,8 +103,7 @@ class _Match(Generic[AnyStr]):
                         if star:
                             at_end = m.end(i) >= end
                             parts = split.split(star.strip(strip))
-                            if base is None:
-                                base = os.path.join(root, filename[:m.start(i)])
+                            base = os.path.join(root, filename[:m.start(i)])
                             last_part = len(parts)
                             for j, part in enumerate(parts, 1):
                                 base = os.path.join(base, part)
